@@ -137,25 +137,35 @@ pub fn check_binary(bytes: &[u8], positions: &[usize], st: &mut Stats, decoded: 
     let (base, base_r) = run_scripted(bytes, None, false)?;
     let wrap = |f: Fail| f.with_decoded(format!("{}\nbaseline callbacks: {:?}", decoded(), base.iter().map(ev_name).collect::<Vec<_>>()));
     // protocol order of the baseline itself
-    let rp = ref_parse(bytes);
-    let mut want: Vec<String> = vec!["initialize".into()];
-    if rp.header.is_ok() {
-        want.push("header".into());
-        for i in &rp.insts {
-            want.push(format!("inst({})", i.opname));
-        }
-    }
-    let whole = rp.header.is_ok() && matches!(rp.end, End::Clean);
-    if whole {
-        want.push("finalize".into());
-    }
     let got: Vec<String> = base.iter().map(ev_name).collect();
-    let open_tail = matches!(rp.end, End::Stray(_)) || matches!(rp.end, End::Fault { dont_care: true, .. });
-    if !open_tail && got != want {
-        return Err(wrap(Fail::new("protocol-order", if got.len() > want.len() { "extra-callback" } else { "missing-callback" }, format!("callbacks {:?}, expected {:?}", got, want))));
-    }
-    if open_tail && (got.len() < want.len() || got[..want.len()] != want[..]) {
-        return Err(wrap(Fail::new("protocol-order", "prefix", format!("callbacks {:?}, expected prefix {:?}", got, want))));
+    let expect = |rp: &RParse| -> Result<(), Fail> {
+        let mut want: Vec<String> = vec!["initialize".into()];
+        if rp.header.is_ok() {
+            want.push("header".into());
+            for i in &rp.insts {
+                want.push(format!("inst({})", i.opname));
+            }
+        }
+        let whole = rp.header.is_ok() && matches!(rp.end, End::Clean);
+        if whole {
+            want.push("finalize".into());
+        }
+        let open_tail = matches!(rp.end, End::Stray(_)) || matches!(rp.end, End::Fault { dont_care: true, .. });
+        if !open_tail && got != want {
+            return Err(Fail::new("protocol-order", if got.len() > want.len() { "extra-callback" } else { "missing-callback" }, format!("callbacks {:?}, expected {:?}", got, want)));
+        }
+        if open_tail && (got.len() < want.len() || got[..want.len()] != want[..]) {
+            return Err(Fail::new("protocol-order", "prefix", format!("callbacks {:?}, expected prefix {:?}", got, want)));
+        }
+        Ok(())
+    };
+    let rp = ref_parse(bytes);
+    if let Err(f) = expect(&rp) {
+        // an id declared twice: either consistent reading of the literal widths (see C03 / C10)
+        let alt = if rp.redefined_id { expect(&with_first_wins(|| ref_parse(bytes))).is_ok() } else { false };
+        if !alt {
+            return Err(wrap(f));
+        }
     }
     let fin_count = base.iter().filter(|e| **e == Ev::Fin).count();
     if (base_r.is_ok()) != (fin_count == 1) || fin_count > 1 || base.iter().filter(|e| **e == Ev::Init).count() != 1 {
